@@ -50,13 +50,13 @@ def nal_body(rng, n):
     return bytes(out)
 
 
-def avc_nal(rng, typ, n, nri=None):
+def avc_nal(rng, typ, n, nri=None, f=0):
     nri = (0 if typ in (6, 9, 12) else rng.choice([1, 2, 3])) if nri is None else nri
-    return bytes([(nri << 5) | typ]) + nal_body(rng, max(0, n - 1))
+    return bytes([(f << 7) | (nri << 5) | typ]) + nal_body(rng, max(0, n - 1))
 
 
-def hevc_nal(rng, typ, n, tid=1, layer=0):
-    return bytes([(typ << 1) | (layer >> 5), ((layer & 31) << 3) | tid]) + nal_body(rng, max(0, n - 2))
+def hevc_nal(rng, typ, n, tid=1, layer=0, f=0):
+    return bytes([(f << 7) | (typ << 1) | (layer >> 5), ((layer & 31) << 3) | tid]) + nal_body(rng, max(0, n - 2))
 
 
 def nal_type(hevc, nal):
@@ -103,9 +103,13 @@ def make_es(rng, vcodec, acodec, arate, nv, gop, sizes, aud, inband, sdp_params,
 
     def hn(typ, n):
         # nuh_layer_id 0, 1, 31, 32, 63 (bit 0 of the first header byte is its top bit), nuh_temporal_id_plus1 1..7
+        # (and, now and then, the forbidden_zero_bit set: a unit the sender marks as damaged is still forwarded as it is)
         if layers:
-            return hevc_nal(rng, typ, n, tid=rng.randrange(1, 8), layer=rng.choice([0, 1, 31, 32, 63, 32, 63]))
+            return hevc_nal(rng, typ, n, tid=rng.randrange(1, 8), layer=rng.choice([0, 1, 31, 32, 63, 32, 63]), f=int(rng.random() < 0.2))
         return hevc_nal(rng, typ, n)
+
+    def an(typ, n):
+        return avc_nal(rng, typ, n, f=int(rng.random() < 0.3)) if "fbit" in extras else avc_nal(rng, typ, n)
     if vcodec != "none":
         for k in range(nv):
             key = k % gop == 0
@@ -124,7 +128,7 @@ def make_es(rng, vcodec, acodec, arate, nv, gop, sizes, aud, inband, sdp_params,
                 if hevc:
                     nals.append(hn(rng.choice([19, 20, 21]) if key else rng.choice([0, 1]), n))
                 else:
-                    nals.append(avc_nal(rng, 5 if key else 1, n))
+                    nals.append(an(5 if key else 1, n))
             if "filler" in extras:
                 nals.append(hn(38, 6) if hevc else avc_nal(rng, 12, 6))
             es["video"].append(dict(ts=(vts + k * fps_ticks) % (1 << tsbits), ord=vts + k * fps_ticks, nals=nals, key=key, params=list(ps)))
@@ -1160,6 +1164,8 @@ def grid(rng, tier):
         for rep in range(2):
             out.append(S(op="rtsp", v="h265", a="none", vm=vm, sz=sz, maxp=maxp, nv=8, gop=4, aud=rep, inband=1, sdp=0, filt=1, rot=1,
                          ex="layers+sei+slices" if rep else "layers", ro=rep))
+    for vm, sz, maxp in (("single", "s", 1200), ("aggr", "s", 1200), ("fu", "m", 500), ("mix", "x", 100)):
+        out.append(S(op="rtsp", v="h264", a="none", vm=vm, sz=sz, maxp=maxp, nv=8, gop=4, inband=1, sdp=0, filt=1, rot=1, ex="fbit+slices"))
     out.append(S(op="ps", v="h265", a="none", pes=500, pts="first", mtu=1400, sz="m", nv=6, gop=3, inband=1, ex="layers+sei"))
     out.append(S(op="cust", v="h265", a="none", vf="annexb", af="raw", sc="a4", sz="m", nv=6, gop=3, inband=1, ex="layers+slices"))
     out.append(S(op="cust", v="h265", a="none", vf="avcc", af="raw", sc="a4", sz="s", nv=6, gop=3, inband=1, ex="layers+filler"))
